@@ -43,6 +43,25 @@ func main() {
 		fmt.Fprintf(os.Stderr, "gntranslate: %v\n", err)
 		os.Exit(1)
 	}
+	// C16 / C17: type-checked passes over neat/genetics and everything it imports from the repository
+	// the source importer resolves third-party imports through `go list`, which must run inside the repository's module
+	// (never let it touch go.mod / go.sum there)
+	absOut, _ := filepath.Abs(*out)
+	*out = absOut
+	absRepo, _ := filepath.Abs(*repo)
+	*repo = absRepo
+	_ = os.Setenv("GOFLAGS", "-mod=readonly")
+	if err := os.Chdir(*repo); err != nil {
+		fmt.Fprintf(os.Stderr, "gntranslate: %v\n", err)
+		os.Exit(1)
+	}
+	prog, err := loadProg(*repo, []string{"neat/genetics"})
+	if err != nil {
+		fmt.Fprintf(os.Stderr, "gntranslate: %v\n", err)
+		os.Exit(1)
+	}
+	files["Access.lean"] = translateAccess(prog)
+	files["NonDet.lean"] = translateNonDet(prog)
 	for name, content := range files {
 		if err := writeIfChanged(filepath.Join(*out, name), []byte(content)); err != nil {
 			fmt.Fprintf(os.Stderr, "gntranslate: %v\n", err)
